@@ -1045,6 +1045,45 @@ func (s *Store) Eval(t *Term, model map[string]uint64, cache map[*Term]*Term) *T
 	return r
 }
 
+// subst replaces variables by terms (a partial substitution: variables not
+// in the map stay).
+func (s *Store) subst(t *Term, repl map[*Term]*Term) *Term {
+	if len(repl) == 0 {
+		return t
+	}
+	cache := map[*Term]*Term{}
+	var rec func(x *Term) *Term
+	rec = func(x *Term) *Term {
+		if x.op == OpConst {
+			return x
+		}
+		if x.op == OpVar {
+			if r, ok := repl[x]; ok {
+				return r
+			}
+			return x
+		}
+		if r, ok := cache[x]; ok {
+			return r
+		}
+		args := make([]*Term, len(x.a))
+		changed := false
+		for i, a := range x.a {
+			args[i] = rec(a)
+			if args[i] != a {
+				changed = true
+			}
+		}
+		r := x
+		if changed {
+			r = s.rebuild(x, args)
+		}
+		cache[x] = r
+		return r
+	}
+	return rec(t)
+}
+
 func (s *Store) rebuild(t *Term, a []*Term) *Term {
 	switch t.op {
 	case OpAdd, OpSub, OpMul, OpUDiv, OpURem, OpSDiv, OpSRem, OpAnd, OpOr, OpXor, OpShl, OpLShr, OpAShr:
